@@ -833,14 +833,15 @@ class Speller:
                                'multiply': 'Multiply', 'divide': 'Divide'}[s[2]])]
             return [self.kw('Let')] + self.lhs(s[1]) + [self.kw('Be')] + op + self.oplist(s[3]), None
         if t == 'pnum':
-            isw = self.is_word_(self.lhs(s[1]))
+            lhs = self.lhs(s[1])          # spelled ONCE: the form of `is` depends on the last token as spelled
+            isw = self.is_word_(lhs)
             if s[2][0] == 'pexpr':
                 e = s[2][1]
                 if e[0] == 'un':
                     # `-` must be spelled "-" and directly precede a number token
-                    return self.lhs(s[1]) + isw + ['-'] + self.expr(e[2]), None
-                return self.lhs(s[1]) + isw + self.expr(e), None
-            return self.lhs(s[1]) + isw, ' ' + self.poetic(s[2][1])
+                    return lhs + isw + ['-'] + self.expr(e[2]), None
+                return lhs + isw + self.expr(e), None
+            return lhs + isw, ' ' + self.poetic(s[2][1])
         if t == 'pstr':
             return self.lhs(s[1]) + [self.kw('Says')], ' ' + s[2]
         if t == 'output':
